@@ -720,6 +720,7 @@ type Joined []Location
 // of locations have only one element, the elemnt will be returuned. Otherwise,
 // a Joined object will be returned.
 func Join(locs ...Location) Location {
+	locs = foldComplementedRuns(locs)
 	list := LocationList{}
 	// Push only ever touches the last node: pushing at the tail instead of
 	// walking the list from its head keeps Join linear in the number of parts.
@@ -739,6 +740,44 @@ func Join(locs ...Location) Location {
 	default:
 		return Joined(list.slice(n))
 	}
+}
+
+// foldComplementedRuns replaces every run of two or more Complemented
+// locations by the complement of their locations joined in reverse order,
+// which is what pushing them one after the other amounts to. Joining a run in
+// one step, instead of letting Push rebuild the growing complement once per
+// part, keeps Join linear for join(complement(a),complement(b),...) too. The
+// argument is returned as it is if it holds no such run.
+func foldComplementedRuns(locs []Location) []Location {
+	var out []Location
+	for i := 0; i < len(locs); i++ {
+		j := i
+		for j < len(locs) {
+			if _, ok := locs[j].(Complemented); !ok {
+				break
+			}
+			j++
+		}
+		if j-i < 2 {
+			if out != nil {
+				out = append(out, locs[i])
+			}
+			continue
+		}
+		if out == nil {
+			out = append(make([]Location, 0, len(locs)), locs[:i]...)
+		}
+		inner := make([]Location, 0, j-i)
+		for k := j - 1; k >= i; k-- {
+			inner = append(inner, locs[k].(Complemented).Location)
+		}
+		out = append(out, Complemented{Join(inner...)})
+		i = j - 1
+	}
+	if out == nil {
+		return locs
+	}
+	return out
 }
 
 // length and slice are the iterative (linear time, constant stack) versions
